@@ -184,8 +184,8 @@ for k, v in EXTRA.items():
 for k in CLAIMS:
     CLAIMS[k]["note"] += (" Reference comparisons (skeleton tables, reviewed guards, shape rules) are made on normal forms (DESIGN 2.2): renamed or "
                           "re-parameterised private functions are mapped back to their reviewed form, new helper functions and locally called closures "
-                          "are transparent, sites proved by B-LEN need no reference; 210 of 224 independently written behaviour-preserving refactorings stay "
-                          "silent (plain maintenance edits almost always, deliberate restructuring of a reviewed function often not), the 14 residual ones are listed in DESIGN 9.5.")
+                          "are transparent, sites proved by B-LEN need no reference; 233 of 248 independently written behaviour-preserving refactorings stay "
+                          "silent (plain maintenance edits almost always, deliberate restructuring of a reviewed function often not), the 15 residual ones are listed in DESIGN 9.5.")
 
 NOT_YET = "check not built yet (DESIGN.md §8 build order); will be claimed once its rules run"
 
